@@ -131,7 +131,8 @@ def _novar(j):
     return Jet(j.v, [c.novar() for c in j.c], j.prec)
 
 
-def _zero_through(D, x, n, what, key, rp, sampler, lo=None):
+def _zero_through(D, x, n, what, key, rp, sampler, lo=None, key_at=None):
+    """key_at: {k: key} overrides the violation key of single coefficients"""
     j = as_jet(x)
     if j.prec < n:
         raise EngineError("%s known only to O(lam^%d), need %d" % (what, j.prec, n))
@@ -139,7 +140,7 @@ def _zero_through(D, x, n, what, key, rp, sampler, lo=None):
     ok = True
     for k in range(start, n):
         v = prove_zero(j._known(k), "%s: lam^%d coefficient == 0" % (what, k), timeout_ms=60000)
-        ok = D(v, key=key, replay=rp, sampler=sampler) and ok
+        ok = D(v, key=(key_at or {}).get(k, key), replay=rp, sampler=sampler) and ok
     return ok
 
 
@@ -197,7 +198,14 @@ def case_expanded_functions(log):
             if via != "direct":
                 name += ":n%d" % n
             what = ("%s order %d: lam*da/dX + sum_k beta_k a^(k+2) [a_ref*lmu = O(1) resummed]" if counting == "A" else "%s order %d: da/dlmu + sum_k beta_k a^(k+2) [fixed lmu]") % (name, n)
-            _zero_through(D, res, n + 2, what, "%s:rge%s" % (name, "" if counting == "A" else "_fixed_order"), rp, _sampler)
+            if via != "direct" and n == 4:
+                # the order-4 closed form is judged once, on expanded_n3lo itself; here: the dispatcher hands exactly its arguments down
+                direct = as_jet(cpl.expanded_n3lo(ref, beta0, bs[0], bs[1], bs[2], lmu))
+                _zero_through(D, a - direct, n + 3, "%s order 4 == expanded_n3lo(ref, beta0, b1, b2, b3, lmu)" % name, "%s:dispatch" % name, rp, _sampler)
+            else:
+                # the coefficient lam^5 of the order-4 residual is where the a_LO^4 term of expanded_n3lo enters: its own key
+                _zero_through(D, res, n + 2, what, "%s:rge%s" % (name, "" if counting == "A" else "_fixed_order"), rp, _sampler,
+                              key_at={5: "expanded_n3lo:a4-term"} if (via == "direct" and n == 4) else None)
             if counting == "A":
                 a0 = as_jet(call(lmu0)) - ref
                 _zero_through(D, a0, n + 3, "%s order %d at the reference scale: a - a_ref" % (name, n), "%s:ref" % name, rp, _sampler)
@@ -269,7 +277,13 @@ def case_expanded_compute(log, em_running, orders):
                     res = ddl(a_s) + _rge_qcd(_novar(a_s), bsym.qcd_list(n)) + mix * _novar(a_s) ** 2
                 else:
                     res = ddl(a_s) + _rge_qcd(_novar(a_s), bsym.qcd_list(n), extra0=(aem * bsym.qcd[(2, 1)] if q >= 1 else 0))
-                _zero_through(D, res, top, "%s: d a_s/dlmu - beta_QCD(a_s,a_em)" % tag, fn + (":rge_qcd:n%d" % n if not (mixed and counting == "B") else ":rge_qcd_mixed"), rp, _sampler)
+                if n == 4 and not mixed:
+                    # order 4: the closed form itself is judged on expanded_n3lo (key expanded_n3lo:a4-term); here: the wrapper hands the right arguments down
+                    b0eff = bsym.b0 + (aem * bsym.qcd[(2, 1)] if (q >= 1 and not em_running) else 0)
+                    direct = as_jet(cpl.expanded_n3lo(ref[0], b0eff, bsym.qcd[(3, 0)] / b0eff, bsym.qcd[(4, 0)] / b0eff, bsym.qcd[(5, 0)] / b0eff, lmu))
+                    _zero_through(D, a_s - direct, top + 1, "%s: a_s == expanded_n3lo(a_ref, beta0_eff, beta_k/beta0_eff, lmu)" % tag, fn + ":n4_args", rp, _sampler)
+                else:
+                    _zero_through(D, res, top, "%s: d a_s/dlmu - beta_QCD(a_s,a_em)" % tag, fn + (":rge_qcd:n%d" % n if not (mixed and counting == "B") else ":rge_qcd_mixed"), rp, _sampler)
                 # QED equation
                 if em_running and q >= 1:
                     res = ddl(a_em) + _rge_qcd(_novar(a_em), bsym.qed_list(q)) + bsym.qed[(1, 2)] * _novar(a_s) * _novar(a_em) ** 2
@@ -304,12 +318,29 @@ def _sampler(rng):
 # (ii) exact method: what is handed to solve_ivp
 # ---------------------------------------------------------------------------
 class IvpStub:
+    """scipy.integrate.solve_ivp as an uninterpreted function of (t_span, y0): records the call, returns fresh symbols as final state; the same
+    initial value problem requested again gets the same final state."""
+
     def __init__(self):
         self.calls = []
+        self.memo = {}
+
+    @staticmethod
+    def _key(x):
+        x = SR(0) + x
+        return x.v.key()
 
     def solve_ivp(self, fun, t_span, y0, method="RK45", t_eval=None, dense_output=False, events=None, vectorized=False, args=None, **options):
         n = len(y0)
-        end = [SR.var("Yend%d_%d" % (len(self.calls), i)) for i in range(n)]
+        try:
+            key = (tuple(self._key(t) for t in t_span), tuple(self._key(y) for y in y0))
+        except Exception:  # noqa
+            key = None
+        end = self.memo.get(key) if key is not None else None
+        if end is None:
+            end = [SR.var("Yend%d_%d" % (len(self.calls), i)) for i in range(n)]
+            if key is not None:
+                self.memo[key] = end
         self.calls.append({"fun": fun, "t_span": t_span, "y0": y0, "args": args, "method": method, "options": options, "end": end})
         return types.SimpleNamespace(y=[[y0[i], end[i]] for i in range(n)], t=[t_span[0], t_span[1]], success=True)
 
